@@ -47,6 +47,10 @@ class Uniquifier:
                 return "\n"
             return (matched_pattern.group(2) or "") + (matched_pattern.group(3) or "")
 
+        elif not tagname.isascii():
+            # case-insensitive matching lets 'ſ', 'ı', 'K' stand for s, i, k: not one of our tags,
+            # and a marker with such a name would never be restored
+            return matched_pattern.group(0)
         else:
             tagname = tagname.lower()
 
